@@ -1,5 +1,7 @@
 """Strategy for a complete (theory card, observable card) of a supported configuration."""
 
+import math
+
 from hypothesis import strategies as st
 
 from . import cards
@@ -86,7 +88,11 @@ def config(
     tgt = draw(st.sampled_from(list(targets)))
     if tgt == "ZA":
         a = round(draw(st.floats(1.0, 240.0)), 3)
-        z = round(draw(st.floats(0.0, 1.0)) * a, 3)
+        # the corners of 0 <= Z <= A (pure neutron matter, pure proton matter) as often as a generic mixture; whole numbers also as ints
+        z = round(draw(st.sampled_from([0.0, 1.0]) | st.floats(0.0, 1.0)) * a, 3)
+        if draw(st.integers(0, 3)) == 0:
+            a = int(math.ceil(a))
+            z = int(min(round(z), a))
         # both spellings of the mapping: Z first (as in the docs) and A first (what a YAML/tar round trip, which sorts keys, hands back)
         tgt = {"Z": z, "A": a} if draw(st.booleans()) else {"A": a, "Z": z}
     ob["TargetDIS"] = tgt
@@ -116,6 +122,21 @@ def config(
         "grid_family": grid["family"],
     }
     return {"theory": th, "obs": ob, "meta": meta}
+
+
+def split_orders(draw, th, meta=None):
+    """The card may give the order of the coefficient functions as PTODIS next to a different evolution order PTO (which
+    then only selects the asymptotic towers of FFN0 / FONLL-FFN0 and the coupling of `apply_pdf`), or PTODIS: None.
+    Call it last: on entry th["PTO"] is the order of the coefficient functions (= meta["pto"]), and stays so in meta."""
+    r = draw(st.integers(0, 7))
+    if r == 0:
+        th["PTODIS"] = None
+    elif r <= 2:
+        th["PTODIS"] = th["PTO"]
+        th["PTO"] = draw(st.sampled_from([o for o in range(4) if o != th["PTODIS"]]))
+        if meta is not None:
+            meta["pto_evol"] = th["PTO"]
+    return th
 
 
 def abbreviate(case):
